@@ -64,9 +64,14 @@ var (
 	embDef   = &model.Schema{Fields: []model.SField{{Label: "b", Marker: "?", Val: intV()}}, Def: true, DefName: "#E0"}
 	embDefN  = &model.Schema{Fields: []model.SField{{Label: "a", Marker: "?", Val: structV(nestBopt)}}, Def: true, DefName: "#E1"}
 	embPat   = &model.Schema{Pats: []model.SPat{{Src: `=~"^a"`, Val: intV()}}, CloseHere: true}
+	nestC    = &model.Schema{Fields: []model.SField{{Label: "c", Marker: "?", Val: intV()}}}
+	// definitions used as field values (closed subtrees reached through a field)
+	defN0 = &model.Schema{Fields: []model.SField{{Label: "b", Val: structV(nestC)}}, Embeds: []*model.Schema{{Fields: []model.SField{{Label: "a", Marker: "?", Val: intV()}}, CloseHere: true}}, Def: true, DefName: "#N0"}
+	defN1 = &model.Schema{Fields: []model.SField{{Label: "a", Marker: "?", Val: intV()}, {Label: "b", Val: structV(nestC)}}, Def: true, DefName: "#N1"}
+	defN2 = &model.Schema{Fields: []model.SField{{Label: "b", Val: structV(nestC)}}, Embeds: []*model.Schema{{Fields: []model.SField{{Label: "a", Marker: "?", Val: intV()}}}}, Def: true, DefName: "#N2"}
 )
 
-const preamble = "#E0: {b?: int}\n#E1: {a?: {b?: int}}\n"
+const preamble = "#E0: {b?: int}\n#E1: {a?: {b?: int}}\n#N0: {close({a?: int}), b: {c?: int}}\n#N1: {a?: int, b: {c?: int}}\n#N2: {{a?: int}, b: {c?: int}}\n"
 
 func members(full bool) []member {
 	ms := []member{
@@ -78,6 +83,7 @@ func members(full bool) []member {
 		pat(`=~"^a"`, structV(nestBopt)),
 		{src: "...", apply: func(s *model.Schema) { s.Ellipsis = true }},
 		emb(embLit), emb(embClose), emb(embDef), emb(embDefN), emb(embPat),
+		fld("b", "?", structV(defN0)), fld("b", "", structV(defN1)), fld("b", "?", structV(defN2)), emb(&model.Schema{Fields: []model.SField{{Label: "c", Val: intV()}}}),
 	}
 	if full {
 		ms = append(ms, fld("a", "!", oneV()), fld("b", "", oneV()), fld("c", "", intV()), fld("c", "!", intV()),
@@ -157,6 +163,15 @@ func dataSet(full bool) []map[string]model.DVal {
 			}
 		}
 	}
+	// deeper data below b (definitions reached through a field close recursively)
+	c1 := model.DVal{Kind: "struct", Fields: map[string]model.DVal{"c": one}}
+	z1 := model.DVal{Kind: "struct", Fields: map[string]model.DVal{"z": one}}
+	cz := model.DVal{Kind: "struct", Fields: map[string]model.DVal{"c": one, "z": one}}
+	for _, inner := range []model.DVal{c1, z1, cz, se} {
+		out = append(out, map[string]model.DVal{"b": {Kind: "struct", Fields: map[string]model.DVal{"b": inner}}},
+			map[string]model.DVal{"b": {Kind: "struct", Fields: map[string]model.DVal{"b": inner, "a": one}}})
+	}
+	out = append(out, map[string]model.DVal{"b": z1}, map[string]model.DVal{"b": {Kind: "struct", Fields: map[string]model.DVal{"a": one, "z": one}}})
 	// hidden / definition fields are never restricted
 	out = append(out, map[string]model.DVal{"_h": one}, map[string]model.DVal{"#d": one, "a": one}, map[string]model.DVal{"_h": one, "b": one})
 	return out
